@@ -25,7 +25,6 @@ import (
 	"verif/internal/chaingen"
 	"verif/internal/evid"
 	"verif/internal/l2"
-	"verif/internal/netsim"
 )
 
 // BanOp is one step of a ban-history scenario.
@@ -40,8 +39,11 @@ type BanOp struct {
 	Kinds     []Kind `json:",omitempty"`
 	OtherPort []bool `json:",omitempty"`
 	Permanent []bool `json:",omitempty"`
-	Calls     int    `json:",omitempty"`
-	Repeat    bool   `json:",omitempty"` // honest: one call re-requests an earlier hash
+	// AltSpelling[i]: UnbanPeer is given the other spelling of the host's
+	// address (IPv4: the IPv4-mapped IPv6 form; IPv6: the expanded form).
+	AltSpelling []bool `json:",omitempty"`
+	Calls       int    `json:",omitempty"`
+	Repeat      bool   `json:",omitempty"` // honest: one call re-requests an earlier hash
 }
 
 // BanPlan is one ban-history scenario: a pure function of (seed, k); the
@@ -53,20 +55,73 @@ type BanPlan struct {
 	Offenders int    // hosts 0..Offenders-1 misbehave when told to
 	Honest    int    // hosts Offenders.. never do
 	TwoPorts  []bool // per offender: a second simulated peer listens on another port of the same IP
-	ChainLen  int
-	Preset    int
-	Ops       []BanOp
+	// Layout / Addrs: where the hosts live (see addrs.go): IPv4, IPv6 inside
+	// one /64 or in different /64s, IPv4 told to the client as ::ffff:a.b.c.d.
+	Layout   string
+	Addrs    []HostAddr
+	ChainLen int
+	Preset   int
+	Ops      []BanOp
 }
 
 // NumFixedBanPlans is the number of seed-independent scenarios at the start
 // of the list.
-const NumFixedBanPlans = 2
+const NumFixedBanPlans = 4
 
 // MakeBanPlan derives ban-history scenario k.
 func MakeBanPlan(seed int64, k int) BanPlan {
 	off := func(kinds []Kind, hosts ...int) BanOp { return BanOp{Op: "offend", Hosts: hosts, Kinds: kinds} }
 	unban := func(host int, other, perm bool) BanOp {
 		return BanOp{Op: "unban", Hosts: []int{host}, OtherPort: []bool{other}, Permanent: []bool{perm}}
+	}
+	unbanAlt := func(host int, other, perm bool) BanOp {
+		o := unban(host, other, perm)
+		o.AltSpelling = []bool{true}
+		return o
+	}
+	switch k {
+	case 2:
+		// IPv6 hosts. Offenders 0 and 1 and the honest host 3 live inside one
+		// /64, offender 2 in a /64 of another provider (told to the client in
+		// the expanded spelling), honest host 4 is an IPv4 host told as
+		// ::ffff:a.b.c.d. Ban, unban (both spellings, other port), offend
+		// again, over a restart.
+		return BanPlan{Seed: 606_002, K: k, Fixed: true, Offenders: 3, Honest: 2, TwoPorts: []bool{false, true, false},
+			Layout: "fixed-v6", Addrs: []HostAddr{
+				fixedV6("2001:db8:6:1::10", false, false), fixedV6("2001:db8:6:1::11", true, false),
+				fixedV6("2a01:4f8:c0:77:21e:c2ff:fe0a:9b3", false, true),
+				fixedV6("2001:db8:6:1::12", false, false), fixedV4("10.6.0.9", false, true)},
+			ChainLen: 100, Preset: chaingen.PresetNoRetarget, Ops: []BanOp{
+				{Op: "honest", Calls: 2},
+				off([]Kind{KMutValue}, 0),
+				off([]Kind{KStripAll, KAddTx}, 1, 2),
+				unban(0, false, false),
+				off([]Kind{KForgeWitness}, 0),
+				unbanAlt(1, true, true),
+				off([]Kind{KDupLast}, 1),
+				{Op: "restart"},
+				{Op: "honest", Calls: 1},
+				unbanAlt(2, false, true),
+				off([]Kind{KCommitAltered}, 2),
+			}}
+	case 3:
+		// An IPv4 offender the client knows by its IPv4-mapped IPv6 spelling,
+		// an IPv6 offender with an honest neighbour in its /64, an IPv4 honest
+		// host.
+		return BanPlan{Seed: 606_003, K: k, Fixed: true, Offenders: 2, Honest: 2, TwoPorts: []bool{true, false},
+			Layout: "fixed-mapped+v6", Addrs: []HostAddr{
+				fixedV4("10.6.3.7", true, true), fixedV6("2606:4700:0:5::2:1", true, false),
+				fixedV6("2606:4700:0:5:a1b2:c3d4:e5f6:789a", false, false), fixedV4("172.20.1.4", false, false)},
+			ChainLen: 90, Preset: chaingen.PresetRetarget, Ops: []BanOp{
+				off([]Kind{KRemoveTx, KMutScript}, 0, 1),
+				unbanAlt(0, false, false),
+				off([]Kind{KStripAll}, 0),
+				{Op: "restart"},
+				unban(1, false, true),
+				off([]Kind{KHeaderOnly}, 1),
+				unban(0, true, true),
+				off([]Kind{KAddTx}, 0),
+			}}
 	}
 	switch k {
 	case 0:
@@ -75,6 +130,7 @@ func MakeBanPlan(seed int64, k int) BanPlan {
 		// sanity check, one failing only the witness commitment, one with an
 		// extra transaction).
 		return BanPlan{Seed: 606_000, K: k, Fixed: true, Offenders: 1, Honest: 1, TwoPorts: []bool{false},
+			Layout: "fixed-v4", Addrs: []HostAddr{fixedV4("10.2.0.1", false, false), fixedV4("10.2.0.2", false, false)},
 			ChainLen: 90, Preset: chaingen.PresetNoRetarget, Ops: []BanOp{
 				{Op: "honest", Calls: 2},
 				off([]Kind{KMutValue}, 0),
@@ -89,6 +145,8 @@ func MakeBanPlan(seed int64, k int) BanPlan {
 		// of its IP and offends from there; the other stays banned over a
 		// restart, is un-banned afterwards and offends again.
 		return BanPlan{Seed: 606_001, K: k, Fixed: true, Offenders: 2, Honest: 2, TwoPorts: []bool{true, false},
+			Layout: "fixed-v4", Addrs: []HostAddr{fixedV4("10.2.0.1", false, false), fixedV4("10.2.0.2", false, false),
+				fixedV4("10.2.0.3", false, false), fixedV4("10.2.0.4", false, false)},
 			ChainLen: 120, Preset: chaingen.PresetRetarget, Ops: []BanOp{
 				off([]Kind{KDupLast, KForgeWitness}, 0, 1),
 				unban(0, true, true),
@@ -111,6 +169,11 @@ func MakeBanPlan(seed int64, k int) BanPlan {
 	for i := 0; i < p.Offenders; i++ {
 		p.TwoPorts = append(p.TwoPorts, r.Intn(2) == 0)
 	}
+	// Placement of the hosts (its own random stream: the shapes of the
+	// histories do not depend on it).
+	layout := RotaLayout(k + int(seed))
+	p.Layout = LayoutName(layout)
+	p.Addrs = MakeAddrs(rand.New(rand.NewSource(seed*7_000_003+int64(k)*15_485_863+66)), p.Offenders+p.Honest, layout)
 	slot := 0
 	nextKind := func() Kind {
 		kd := BanKinds[mod(k*5+slot+int(seed)*3, len(BanKinds))]
@@ -154,6 +217,7 @@ func MakeBanPlan(seed int64, k int) BanPlan {
 		for _, h := range hosts {
 			op.OtherPort = append(op.OtherPort, p.TwoPorts[h] && r.Intn(2) == 0)
 			op.Permanent = append(op.Permanent, r.Intn(2) == 0)
+			op.AltSpelling = append(op.AltSpelling, mod(k+h+len(p.Ops)+int(seed), 2) == 0)
 			banned[h] = false
 			if stage[h] == 1 {
 				stage[h] = 2
@@ -231,6 +295,9 @@ func (p BanPlan) Describe() string {
 				if o.Permanent[i] {
 					t += ":perm"
 				}
+				if i < len(o.AltSpelling) && o.AltSpelling[i] {
+					t += ":alt-spelling"
+				}
 				s = append(s, t)
 			}
 			ops = append(ops, "unban("+strings.Join(s, ",")+")")
@@ -246,14 +313,20 @@ func (p BanPlan) Describe() string {
 			two++
 		}
 	}
-	return fmt.Sprintf("ban-history offenders=%d(two-ports=%d) honest=%d [%s]", p.Offenders, two, p.Honest, strings.Join(ops, " "))
+	var ok []string
+	for i := 0; i < p.Offenders && i < len(p.Addrs); i++ {
+		ok = append(ok, p.Addrs[i].Kind())
+	}
+	return fmt.Sprintf("ban-history offenders=%d(two-ports=%d;%s) honest=%d addrs=%s(%s) [%s]", p.Offenders, two, strings.Join(ok, ","), p.Honest,
+		p.Layout, describeAddrs(p.Addrs), strings.Join(ops, " "))
 }
 
 // banHost is the harness's record of one simulated host (one IP).
 type banHost struct {
 	Idx      int
 	Offender bool
-	Ports    []string // addresses of the simulated peers on this IP
+	A        HostAddr
+	Ports    []string // addresses (canonical spelling) of the simulated peers on this IP
 	Active   int      // index of the port the client may reach
 	// Model: "no", "yes", or "unknown" (an invalid block was written to a
 	// connection the client had already closed).
@@ -264,12 +337,27 @@ type banHost struct {
 	EverOffended int64 // event number of the first invalid answer (0: none)
 	lastBad      *Answer
 	lastHist     string
+	// neighbourUnbanned: UnbanPeer was called for ANOTHER host inside this
+	// host's /64 while this one was banned (whether that lifts this host's
+	// ban is not decided by the property: not asserted, only counted).
+	neighbourUnbanned bool
 	// Spans during which the host was observed banned: [first, last) event
 	// numbers; no handshake with any of its ports may complete inside.
 	Spans [][2]int64
 }
 
 func (h *banHost) addr() string { return h.Ports[h.Active] }
+
+// alt is a canonical host:port of this host in the host's other spelling.
+func (h *banHost) alt(addr string) string { return altOf(addr, []HostAddr{h.A}) }
+
+// told is the spelling of addr the client is given in ConnectPeers.
+func (h *banHost) told(addr string) string {
+	if h.A.DialAlt {
+		return h.alt(addr)
+	}
+	return addr
+}
 
 // shape normalises a history for signatures and marks: kinds are dropped.
 func shape(hist []string) string {
@@ -296,7 +384,10 @@ type banObs struct {
 	Model  string
 	Store  bool
 	Reason string          `json:",omitempty"`
-	Live   map[string]bool // IsBanned per port address
+	Live   map[string]bool // IsBanned per port address, in both spellings
+	// StoreAlt: what the ban store says when asked with the other spelling
+	// of the host's address.
+	StoreAlt *bool `json:",omitempty"`
 }
 
 // BanHistScenario runs ban-history scenario k in this process.
@@ -326,22 +417,39 @@ func BanHistScenario(seed int64, k int, res *l2.Result) {
 		order[i] = mod(i+k, nHosts)
 	}
 	for _, hi := range order {
-		p := w.AddPeer(tip)
+		p := w.AddPeerAt(plan.Addrs[hi].At(18444), tip)
 		p.Mutate = d.mutate
 		d.peerIdx[p.Addr] = len(w.Peers) - 1
 		hostOf[len(w.Peers)-1] = hi
-		hosts[hi] = &banHost{Idx: hi, Offender: hi < plan.Offenders, Ports: []string{p.Addr}, Banned: "no"}
+		hosts[hi] = &banHost{Idx: hi, Offender: hi < plan.Offenders, A: plan.Addrs[hi], Ports: []string{p.Addr}, Banned: "no"}
+		res.Count("banhist_hosts_addr_"+plan.Addrs[hi].Kind(), 1)
+	}
+	// sharers: the other hosts inside the /64 of host hi (IPv6 only).
+	sharers := func(hi int) []*banHost {
+		var o []*banHost
+		for _, g := range hosts {
+			if g.Idx != hi && sameNet64(g.A, hosts[hi].A) {
+				o = append(o, g)
+			}
+		}
+		return o
+	}
+	// neighbourOffended: another host of the /64 has served an invalid block.
+	neighbourOffended := func(hi int) bool {
+		for _, g := range sharers(hi) {
+			if g.EverOffended != 0 || g.Banned == "unknown" {
+				return true
+			}
+		}
+		return false
 	}
 	for hi := 0; hi < plan.Offenders; hi++ {
 		if !plan.TwoPorts[hi] {
 			continue
 		}
-		ip := netsim.TCPAddr(hosts[hi].Ports[0]).IP.String()
-		addr := fmt.Sprintf("%s:%d", ip, 18555+hi)
-		p := netsim.NewPeer(addr, w.G.P.Net, netsim.NewView(w.G, tip), w.Log)
+		p := w.AddPeerAt(plan.Addrs[hi].At(18555+hi), tip)
+		addr := p.Addr
 		p.Mutate = d.mutate
-		w.Peers = append(w.Peers, p)
-		w.Net.Add(p)
 		w.Net.Refuse(addr, true)
 		d.peerIdx[addr] = len(w.Peers) - 1
 		hostOf[len(w.Peers)-1] = hi
@@ -389,7 +497,7 @@ func BanHistScenario(seed int64, k int, res *l2.Result) {
 	activeAddrs := func() []string {
 		var a []string
 		for _, hi := range order {
-			a = append(a, hosts[hi].addr())
+			a = append(a, hosts[hi].told(hosts[hi].addr()))
 		}
 		return a
 	}
@@ -436,15 +544,37 @@ func BanHistScenario(seed int64, k int, res *l2.Result) {
 
 	// judge compares one host's ban state (from the store, and IsBanned per
 	// port when the client runs) with the model.
-	judge := func(h *banHost, where string, st banman.Status, live map[string]bool) {
+	judge := func(h *banHost, where string, st banman.Status, stAlt *banman.Status, live map[string]bool) {
 		o := banObs{Seq: w.Log.Len(), Where: where, Host: h.Idx, Model: h.Banned, Store: st.Banned, Live: live}
 		if st.Banned {
 			o.Reason = st.Reason.String()
 		}
+		if stAlt != nil {
+			o.StoreAlt = &stAlt.Banned
+		}
 		obs = append(obs, o)
 		res.Count("banhist_host_states_compared", 1)
+		res.Count("banhist_host_states_compared_addr_"+h.A.Kind(), 1)
 		invalidBan := st.Banned && st.Reason == banman.InvalidBlock
+		// A host that never offended but shares its /64 with one that did:
+		// the statement speaks of the sender only; whether the neighbourhood
+		// is covered too is not asserted either way.
+		bystander := h.EverOffended == 0 && h.Banned == "no" && neighbourOffended(h.Idx)
+		if bystander {
+			res.Count(fmt.Sprintf("banhist_unoffending_host_in_offenders_64_banned_%v", st.Banned), 1)
+		}
+		// The other spelling of the address names the same host.
+		if stAlt != nil && (stAlt.Banned != st.Banned || stAlt.Banned && stAlt.Reason != st.Reason) {
+			violated = true
+			res.Violate(evid.Sig("c06/ban-record-depends-on-address-spelling", "ban-history", "addr:"+h.A.Kind(), where),
+				fmt.Sprintf("the ban store answers banned=%v for %s and banned=%v for %s, two spellings of the address of host %d (checkpoint %q, history %s)",
+					st.Banned, h.Ports[0], stAlt.Banned, h.alt(h.Ports[0]), h.Idx, where, shape(h.Hist)), wit())
+		}
 		switch {
+		case h.Banned == "yes" && !invalidBan && !st.Banned && h.neighbourUnbanned:
+			// UnbanPeer was called for another host of this /64 meanwhile.
+			res.Count("banhist_ban_gone_after_unban_of_a_host_in_the_same_64", 1)
+			h.Banned = "unknown"
 		case h.Banned == "yes" && !invalidBan:
 			how := "not-banned"
 			if st.Banned {
@@ -452,12 +582,14 @@ func BanHistScenario(seed int64, k int, res *l2.Result) {
 			}
 			a := h.lastBad
 			violated = true
-			res.Violate(evid.Sig("c06/invalid-block-sender-not-banned", a.Step, witStr(w, a.Hash), how, "history:"+h.lastHist, where),
+			res.Violate(evid.Sig("c06/invalid-block-sender-not-banned", a.Step, witStr(w, a.Hash), how, "history:"+h.lastHist, "addr:"+h.A.Kind(), where),
 				fmt.Sprintf("host %d (%s) answered the request for block %s (height %d) with a block carrying that header but differing from it (%s; btcd sanity: %q, commitment: %q) while the call was active, and is %s at checkpoint %q (ban store record: %v). History of the host before this block: %s",
 					h.Idx, w.Peers[a.Peer].Addr, a.HashStr, a.Height, a.Step, firstBad(a).SanityErr, firstBad(a).CommitErr, how, where, st.Banned, h.lastHist), wit())
 			h.Banned = "unknown"
 		case h.Banned == "yes":
 			res.Count("banhist_bans_confirmed_"+where, 1)
+			res.Count("banhist_bans_confirmed_addr_"+h.A.Kind(), 1)
+		case bystander:
 		case h.Banned == "no" && invalidBan && h.EverOffended == 0:
 			violated = true
 			res.Violate(evid.Sig("c06/innocent-peer-banned", "ban-history", where),
@@ -470,9 +602,12 @@ func BanHistScenario(seed int64, k int, res *l2.Result) {
 			h.Banned = "unknown"
 		}
 		for addr, l := range live {
+			if bystander {
+				break
+			}
 			if l != st.Banned {
 				violated = true
-				res.Violate(evid.Sig("c06/isbanned-disagrees-with-store", "ban-history", where),
+				res.Violate(evid.Sig("c06/isbanned-disagrees-with-store", "ban-history", "addr:"+h.A.Kind(), where),
 					fmt.Sprintf("IsBanned(%s)=%v but the ban store says banned=%v for that IP (checkpoint %q, history %s)", addr, l, st.Banned, where, shape(h.Hist)), wit())
 			}
 		}
@@ -489,11 +624,18 @@ func BanHistScenario(seed int64, k int, res *l2.Result) {
 				res.Inconcl("ban status unreadable: " + err.Error())
 				continue
 			}
+			var stAlt *banman.Status
+			if ipa, err := banman.ParseIPNet(h.alt(h.Ports[0]), nil); err == nil {
+				if sa, err := store.Status(ipa); err == nil {
+					stAlt = &sa
+				}
+			}
 			live := map[string]bool{}
 			for _, a := range h.Ports {
 				live[a] = w.Svc.IsBanned(a)
+				live[h.alt(a)] = w.Svc.IsBanned(h.alt(a))
 			}
-			judge(h, where, st, live)
+			judge(h, where, st, stAlt, live)
 		}
 	}
 	// gone waits until the client holds no connection to a host it banned
@@ -618,7 +760,14 @@ func BanHistScenario(seed int64, k int, res *l2.Result) {
 						}
 						h.Hist = append(h.Hist, "offend:"+a.Step)
 						h.Banned = "yes"
+						h.neighbourUnbanned = false
 						res.Count("banhist_invalid_blocks_delivered", 1)
+						res.Count("banhist_invalid_blocks_from_addr_"+h.A.Kind(), 1)
+						nb := "alone-in-its-net"
+						if len(sharers(hi)) > 0 {
+							nb = "others-in-its-64"
+							res.Count("banhist_invalid_blocks_from_a_host_with_others_in_its_64", 1)
+						}
 						res.Count("banhist_offence_kind_"+a.Step, 1)
 						if strings.Contains(h.lastHist, "unban") {
 							res.Count("banhist_offences_after_unban", 1)
@@ -628,8 +777,8 @@ func BanHistScenario(seed int64, k int, res *l2.Result) {
 							}
 							res.Nontrivial = true
 						}
-						res.Mark(fmt.Sprintf("banhist|%s|wit=%v|history=%s|%s|hosts=%d+%d", a.Step, witStr(w, a.Hash) == "block-with-witness",
-							h.lastHist, port, plan.Offenders, plan.Honest))
+						res.Mark(fmt.Sprintf("banhist|%s|wit=%v|history=%s|%s|hosts=%d+%d|addr=%s|%s", a.Step, witStr(w, a.Hash) == "block-with-witness",
+							h.lastHist, port, plan.Offenders, plan.Honest, h.A.Kind(), nb))
 					case a.Class == "bad" || a.Class == "senderr":
 						// Written after the call had ended, or to a closed
 						// connection: the client may or may not have seen it.
@@ -678,7 +827,17 @@ func BanHistScenario(seed int64, k int, res *l2.Result) {
 				if n := len(h.Spans); n > 0 {
 					h.Spans[n-1][1] = seq
 				}
-				if err := w.Svc.UnbanPeer(h.addr(), op.Permanent[i]); err != nil {
+				spelt := h.addr()
+				if i < len(op.AltSpelling) && op.AltSpelling[i] {
+					spelt = h.alt(spelt)
+					res.Count("banhist_unbans_by_other_spelling", 1)
+				}
+				for _, g := range sharers(hi) {
+					if g.Banned == "yes" {
+						g.neighbourUnbanned = true
+					}
+				}
+				if err := w.Svc.UnbanPeer(spelt, op.Permanent[i]); err != nil {
 					abort("UnbanPeer returned an error (precondition of the next step): " + err.Error())
 					h.Banned = "unknown"
 					continue
@@ -687,6 +846,7 @@ func BanHistScenario(seed int64, k int, res *l2.Result) {
 				h.Hist = append(h.Hist, ev)
 				back = append(back, h)
 				res.Count("banhist_unbans", 1)
+				res.Count("banhist_unbans_addr_"+h.A.Kind(), 1)
 				res.Count(fmt.Sprintf("banhist_unbans_permanent_%v", op.Permanent[i]), 1)
 			}
 			checkpoint("after-unban")
@@ -751,7 +911,7 @@ func BanHistScenario(seed int64, k int, res *l2.Result) {
 						continue
 					}
 					if st, err := st2.Status(ipn); err == nil {
-						judge(h, "after-stop", st, nil)
+						judge(h, "after-stop", st, nil, nil)
 					}
 				}
 			}
@@ -833,7 +993,7 @@ func BanHistScenario(seed int64, k int, res *l2.Result) {
 	res.Count("events_logged", w.Log.Len())
 	var hs []map[string]any
 	for _, h := range hosts {
-		hs = append(hs, map[string]any{"host": h.Idx, "ports": h.Ports, "history": h.Hist, "model": h.Banned})
+		hs = append(hs, map[string]any{"host": h.Idx, "ports": h.Ports, "addr": h.A, "history": h.Hist, "model": h.Banned})
 	}
 	res.Sample = map[string]any{"scenario": k, "fingerprint": plan.Describe(), "hosts": hs, "calls": len(calls), "checkpoints": len(obs)}
 }
